@@ -1,0 +1,26 @@
+//go:build verif
+
+/*
+Copyright (c) Meta Platforms, Inc. and affiliates.
+Licensed under the Apache License, Version 2.0 (the "License");
+you may not use this file except in compliance with the License.
+You may obtain a copy of the License at
+    http://www.apache.org/licenses/LICENSE-2.0
+Unless required by applicable law or agreed to in writing, software
+distributed under the License is distributed on an "AS IS" BASIS,
+WITHOUT WARRANTIES OR CONDITIONS OF ANY KIND, either express or implied.
+See the License for the specific language governing permissions and
+limitations under the License.
+*/
+
+package dnsserver
+
+import "github.com/facebookincubator/dns/dnsrocks/db"
+
+// This file is only compiled with the `verif` build tag.
+
+// SetDBForVerif installs a DB (typically one wrapping an instrumented backend)
+// as the served database, the way Load does after db.Open.
+func (h *FBDNSDB) SetDBForVerif(d *db.DB) {
+	h.dnsdb = d
+}
